@@ -15,12 +15,25 @@ Arguments leaf_from_dict_value : simpl never.
 Arguments member_key : simpl never.
 
 (** ---- dict documents ---- *)
+Lemma integral_float_safe rs c :
+  match nth_error rs 1 with Some (e, k) => is_fault e = true /\ is_client k = true | None => False end ->
+  safe (integral_float rs c).
+Proof.
+  intros H. unfold integral_float, raise_nth. destruct c; try exact I;
+    destruct (nth_error rs 1) as [[e k]|]; auto; contradiction.
+Qed.
 Lemma ret_number_safe P v : safe (ret_number P v).
-Proof. unfold ret_number. destruct P, v; try destruct b; conc. Qed.
+Proof.
+  unfold ret_number. destruct P, v; try destruct b; try conc;
+    useg; cbn [is_non_number]; apply integral_float_safe; vm_compute; auto.
+Qed.
+Lemma msgpack_integer_safe v : safe (msgpack_integer v).
+Proof.
+  unfold msgpack_integer. destruct v; try destruct b; try conc;
+    useg; cbn [is_non_number]; apply integral_float_safe; vm_compute; auto.
+Qed.
 Lemma ret_bool_safe P v : safe (ret_bool P v).
-Proof. unfold ret_bool. destruct (is_bit v); [conc|]. destruct P; conc. Qed.
-Lemma int_of_nontext_safe v : safe (int_of_nontext v).
-Proof. unfold int_of_nontext. destruct v as [| | |c| | | | |]; try destruct c; try destruct b; conc. Qed.
+Proof. unfold ret_bool. destruct (is_bool v); [conc|]. destruct P; conc. Qed.
 Lemma a2b_safe b : safe (of_out (a2b_go false 0 0 0 [] b)).
 Proof. apply of_out_safe. apply a2b_go_total. Qed.
 
@@ -41,7 +54,7 @@ Section DictProofs.
           destruct u; vm_compute in H; first [discriminate H | inversion H; subst; clear H] end
       | apply safe_vfault
       | apply read_int_safe | apply read_bytes_safe | apply a2b_safe | apply ret_number_safe
-      | apply ret_bool_safe | apply int_of_nontext_safe | apply read_leaf_safe_inbase
+      | apply ret_bool_safe | apply msgpack_integer_safe | apply read_leaf_safe_inbase
       | match goal with |- safe (if ?c then _ else _) => destruct c end
       | match goal with |- safe (match ?x with _ => _ end) => is_var x; destruct x end
       | match goal with |- safe (rbind _ _) => apply safe_bind; [ | intros ] end
@@ -50,18 +63,17 @@ Section DictProofs.
       | match goal with |- safe (tryS _ (match ?x with _ => _ end)) => is_var x; destruct x end
       | conc ].
 
-  Lemma leaf_from_dict_value_safe k nillable attr inst :
-    safe (leaf_from_dict_value P soft k nillable attr inst).
+  Lemma leaf_from_dict_value_safe k nillable inst :
+    safe (leaf_from_dict_value P soft k nillable inst).
   Proof.
     unfold leaf_from_dict_value.
     apply safe_bind.
     { destruct soft; [|conc]. apply safe_bind.
-      - destruct inst, k, attr, nillable; conc.
-      - intros _ _. destruct P; try conc. destruct attr; [conc|]. useg. auto_safe. }
-    intros _ _. destruct attr.
-    { cbv zeta. destruct inst; auto_safe. }
+      - destruct inst, k, nillable; conc.
+      - intros _ _. destruct P; try conc. useg. auto_safe. }
+    intros _ _.
     destruct inst, k; useg;
-      cbn [is_textlike is_text_only_kind is_regex_kind negb andb orb];
+      cbn [is_textlike is_text_only_kind is_number_kind is_number_source is_number negb andb orb];
       auto_safe.
   Qed.
 End DictProofs.
@@ -76,8 +88,7 @@ Section DictTotal.
   Lemma check_freq_safe fs seen : safe (check_freq fs seen).
   Proof.
     induction fs as [|f r IH]; simpl; [conc|].
-    destruct (match f_ty f with TArr _ _ => _ | _ => _ end) as [mn mx].
-    destruct (_ <? mn); [conc|]. destruct (negb _); [conc|exact IH].
+    destruct (_ <? f_min f); [conc|]. destruct (negb _); [conc|exact IH].
   Qed.
 
   Lemma member_key_safe k : safe (member_key P k).
@@ -91,11 +102,13 @@ Section DictTotal.
     Variable rec : ty -> jv -> res unit.
     Hypothesis Hrec : forall t d, complex_wf t = true -> safeF (rec t d).
 
-    Lemma from_dict_value_safeF t nil' attr inst :
-      ty_wf N t = true -> safeF (from_dict_value P soft rec t nil' attr inst).
+    Lemma from_dict_value_safeF t nil' inst :
+      ty_wf N t = true -> safeF (from_dict_value P soft rec t nil' inst).
     Proof.
-      intros W. unfold from_dict_value. destruct t; try (apply Hrec; exact W); try discriminate W.
-      apply safe_safeF. apply leaf_from_dict_value_safe.
+      intros W. unfold from_dict_value. destruct t; try discriminate W.
+      - apply safe_safeF. apply leaf_from_dict_value_safe.
+      - destruct inst; try (apply Hrec; exact W). useg. destruct (soft && negb nil'); apply safe_safeF; conc.
+      - destruct inst; try (apply Hrec; exact W). useg. destruct (soft && negb nil'); apply safe_safeF; conc.
     Qed.
 
     Lemma array_items_safeF elt l : ty_wf N elt = true -> safeF (array_items P soft rec elt l).
@@ -104,8 +117,8 @@ Section DictTotal.
       apply safeF_bind; [apply from_dict_value_safeF; exact W | intros; exact IH].
     Qed.
 
-    Lemma repeated_items_safeF key f attr l :
-      ty_wf N (f_ty f) = true -> safeF (repeated_items P soft rec key f attr l).
+    Lemma repeated_items_safeF key f l :
+      ty_wf N (f_ty f) = true -> safeF (repeated_items P soft rec key f l).
     Proof.
       intros W. induction l as [|x r IH]; [exact I|]. cbn [repeated_items].
       apply safeF_bind; [apply from_dict_value_safeF; exact W|].
@@ -259,12 +272,13 @@ Section FuelProofs.
     Hypothesis Hrec : forall t d, complex_wf A t = true -> ok t = true -> safe (rec t d).
     Let sub (u : ty) : bool := match u with TLeaf _ => true | _ => ok u end.
 
-    Lemma from_dict_value_safe t nil' attr inst :
-      ty_wf N t = true -> sub t = true -> safe (from_dict_value P soft rec t nil' attr inst).
+    Lemma from_dict_value_safe t nil' inst :
+      ty_wf N t = true -> sub t = true -> safe (from_dict_value P soft rec t nil' inst).
     Proof.
-      intros W S. unfold from_dict_value. destruct t; try discriminate W;
-        try (apply Hrec; [exact W | exact S]).
-      apply leaf_from_dict_value_safe.
+      intros W S. unfold from_dict_value. destruct t; try discriminate W.
+      - apply leaf_from_dict_value_safe.
+      - destruct inst; try (apply Hrec; [exact W | exact S]). useg. destruct (soft && negb nil'); conc.
+      - destruct inst; try (apply Hrec; [exact W | exact S]). useg. destruct (soft && negb nil'); conc.
     Qed.
 
     Lemma array_items_safe elt l :
@@ -274,8 +288,8 @@ Section FuelProofs.
       apply safe_bind; [apply from_dict_value_safe; auto | intros; exact IH].
     Qed.
 
-    Lemma repeated_items_safe key f attr l :
-      ty_wf N (f_ty f) = true -> sub (f_ty f) = true -> safe (repeated_items P soft rec key f attr l).
+    Lemma repeated_items_safe key f l :
+      ty_wf N (f_ty f) = true -> sub (f_ty f) = true -> safe (repeated_items P soft rec key f l).
     Proof.
       intros W S. induction l as [|x r IH]; [exact I|]. cbn [repeated_items].
       apply safe_bind; [apply from_dict_value_safe; auto|].
